@@ -136,6 +136,8 @@ class HistWorld(World):
         self.load_val = 0.0
         self.saved = {}  # folder name -> dict(n_iter, snaps copy, state, mesh digests) at the last completed Save
         self.solved = False
+        self._solved_since_commit = False
+        self._extra_before_save = None
         with ctx.sut():
             self.meshes = [meshlib.build(r) for r in self.raws]
             self.mesh_i = 0
@@ -177,7 +179,8 @@ class HistWorld(World):
         sim = self.sim
         if self.type == "InElastic":
             z = getattr(sim, "_InElastic__zOld")
-            return {str(k): np.array(v) for k, v in z.items()}
+            # a group whose state was never touched is the virgin (all-zero) state, whether or not its array exists yet
+            return {str(k): np.array(v) for k, v in z.items() if np.any(np.array(v))}
         if self.type == "PhaseField" and self.params["solver"] == "History" and not self.ctx.avoids("pf-history-not-restored"):
             return {"H": np.array(getattr(sim, "_PhaseField__old_psiP_e_pg"))}
         return {}
@@ -219,8 +222,11 @@ class HistWorld(World):
                 raise Violation("saved-entry-differs-from-live", f"'{key}' stored by Save_Iter differs from the live field")
             self.ctx.checked()
         for name in RESULTS_AT_SAVE[self.type]:
-            with self.ctx.sut():
-                snap["results"][name] = copy.deepcopy(sim.Result(name))
+            try:
+                with self.ctx.sut():
+                    snap["results"][name] = copy.deepcopy(sim.Result(name))
+            except SutError as e:
+                raise Violation("result-raises-after-save", f"Result('{name}') right after Save_Iter raised {e}", e.site)
         return snap
 
     def _check_entry(self, i, what, sim=None):
@@ -353,9 +359,11 @@ class HistWorld(World):
             except SutError as e:
                 if isinstance(e.exc, AssertionError) and ("did not converge" in str(e.exc) or "det(F)" in str(e.exc) or "reduce the load step" in str(e.exc)):
                     ctx.probe("solve_not_converged")
+                    self._solved_since_commit = True  # trial internal variables may have moved
                     return "noconv"
                 raise Violation("solve-raises", f"Solve raised {e}", e.site)
             self.solved = True
+            self._solved_since_commit = True
             if self.algo["algo"] != "elliptic":
                 ctx.phys_time += self.algo["dt"]
             self._check_all_entries("after Solve")
@@ -525,6 +533,7 @@ class HistWorld(World):
     # ------------------------------------------------------------------ ops
     def _act_save_iter(self):
         sim = self.sim
+        self._extra_before_save = self._live_extra() if not self._solved_since_commit else None
         try:
             with self.ctx.sut():
                 sim.Save_Iter()
@@ -533,6 +542,10 @@ class HistWorld(World):
 
     def _ver_save_iter(self):
         sim = self.sim
+        if self._extra_before_save is not None and not deep_equal(self._live_extra(), self._extra_before_save):
+            # nothing was solved since the state was committed / restored: saving must not move the internal variables
+            raise Violation("save-iter-moves-internal-variables", f"Save_Iter without a Solve since the last Save_Iter / Set_Iter changed the committed internal variables: {first_diff(self._live_extra(), self._extra_before_save)}")
+        self._solved_since_commit = False
         self.snaps.append(None)
         try:
             self.snaps[-1] = self._snapshot()
@@ -582,6 +595,7 @@ class HistWorld(World):
         if snap["mesh_i"] != self.mesh_i:
             self.ctx.probe("set_iter_switched_mesh")
         self.mesh_i = snap["mesh_i"]
+        self._solved_since_commit = bool(resetAll)
         if not resetAll:
             self._check_restored(i, "set_iter")
         self.solved = True
